@@ -53,16 +53,38 @@ BASE_KINDS = [
     ["pi", "lingrad", "comment", "foreignel", "titledesc"],
 ]
 
-OPTION_BASES = {"K:hrefgrad/xformed", "K:clipped", "K:gclip:circle+lingrad", "K:lingrad/radgrad", "K:gop:rect+circle", "K:text", "K:use", "K:symbolanon/polygon/polyline", "K:pi/lingrad/comment/foreignel/titledesc"}
+OPTION_BASES = {"X:gradids", "K:hrefgrad/xformed", "K:clipped", "K:gclip:circle+lingrad", "K:lingrad/radgrad", "K:gop:rect+circle", "K:text", "K:use", "K:symbolanon/polygon/polyline", "K:pi/lingrad/comment/foreignel/titledesc"}
 G_PARENTS = {"svg", "g", "defs", "symbol"}
 # foreign-namespace attributes whose *local* name is an SVG attribute the conversion reads
 FIELD_ATTRS = {"fill": "lime", "opacity": "0.1", "transform": "translate(40 40)", "display": "none", "d": "M0,0 L90,0 L90,90 Z", "cx": "1", "width": "1", "id": "dup", "style": "fill:pink"}
+TREE_NOISE = {"comment", "pi", "ws", "pi-before-root"}  # what SVG.fromstring's parser would have discarded while reading
 NOISE = ["comment", "pi", "title", "desc", "metadata", "foreignel", "symbol", "ws"]
 
 
+_ST = '<stop offset="0" stop-color="red"/><stop offset="1" stop-color="blue"/>'
+# authored ids that look like generated ones (gradient copies are named <id>_<n>, viewport clips nested-svg-viewport-<n>)
+EXTRA_BASES = [
+    (
+        "X:gradids",
+        f'<svg {G.NS} viewBox="0 0 100 100"><defs><linearGradient id="a" x2="1" y2="1">{_ST}</linearGradient><linearGradient id="a_0" x1="1" x2="0">{_ST}</linearGradient></defs>'
+        '<rect x="5" y="5" width="30" height="30" fill="url(#a)" transform="translate(10 5)"/><rect x="50" y="50" width="30" height="30" fill="url(#a_0)"/></svg>',
+    ),
+    (
+        "X:gradids-rev",
+        f'<svg {G.NS} viewBox="0 0 100 100"><defs><linearGradient id="a_0" x1="1" x2="0">{_ST}</linearGradient><linearGradient id="a_1" y2="1" x2="0">{_ST}</linearGradient><linearGradient id="a" x2="1" y2="1">{_ST}</linearGradient></defs>'
+        '<rect x="50" y="50" width="30" height="30" fill="url(#a_0)"/><g transform="scale(.9)"><rect x="5" y="5" width="30" height="30" fill="url(#a)"/><circle cx="70" cy="20" r="12" fill="url(#a_1)"/></g></svg>',
+    ),
+    (
+        "X:clipids",
+        f'<svg {G.NS} viewBox="0 0 100 100"><defs><clipPath id="nested-svg-viewport-0"><circle cx="30" cy="30" r="25"/></clipPath></defs>'
+        '<rect x="5" y="5" width="60" height="60" fill="teal" clip-path="url(#nested-svg-viewport-0)"/><svg x="40" y="40" width="50" height="50" viewBox="0 0 10 10"><rect x="-5" y="2" width="30" height="6" fill="red"/></svg></svg>',
+    ),
+]
+
+
 def base_docs(tier):
-    docs = [("K:" + "/".join(k), G.document(k)) for k in BASE_KINDS]
-    files = sorted(glob.glob("/repo/tests/*.svg"))
+    docs = [("K:" + "/".join(k), G.document(k)) for k in BASE_KINDS] + list(EXTRA_BASES)
+    files = sorted(glob.glob(os.environ.get("VERIF_REPO", "/repo") + "/tests/*.svg"))
     repo = []
     for f in files:
         n = os.path.basename(f)
@@ -282,6 +304,22 @@ def convert(doc, opts=None):
         return "raised:" + type(e).__name__, f"{type(e).__name__}: {e}"
 
 
+def convert_tree(doc, opts=None):
+    """second way in: the caller parses the text with lxml's defaults (comments, PIs and blank text KEPT) and hands the
+    tree to the constructor"""
+    from lxml import etree
+    from picosvg.svg import SVG
+
+    try:
+        tree = etree.fromstring(doc.encode("utf-8"))
+    except Exception:
+        return "unparsed", ""
+    try:
+        return "returned", SVG(tree).topicosvg(**(opts or {})).tostring()
+    except Exception as e:  # noqa
+        return "raised:" + type(e).__name__, f"{type(e).__name__}: {e}"
+
+
 _BASE_CACHE = {}
 
 
@@ -303,6 +341,16 @@ def judge(name, doc, ops, opts=None):
         c = canon(out)
         if not same_canon(c, bc):
             return o, f"converted document changes with noise {ops}", noisy, out
+    if any(op[0] in TREE_NOISE for op in ops):
+        o2, out2 = convert_tree(noisy, opts)
+        if o2 != "unparsed":
+            if o2 != bo:
+                return o2, f"clean document: {bo}; tree parsed by the caller with noise {ops}: {o2} ({out2[:160] if o2 != 'returned' else ''})", noisy, out2
+            if o2 == "returned":
+                if "<!--" in out2 or "<?" in out2:
+                    return o2, f"comment / processing instruction survives the conversion of a caller-parsed tree with noise {ops}", noisy, out2
+                if not same_canon(canon(out2), bc):
+                    return o2, f"converted document changes with noise {ops} (tree parsed by the caller)", noisy, out2
     return o, None, noisy, out
 
 
